@@ -59,10 +59,10 @@ mutual
     | .forUp i lim body =>
       -- `var i = 0` runs first; the test reads `i` and `lim`
       if D.contains lim && (scopedStmts (i :: D) body).isSome then some (i :: D) else none
-    | .forStep i lim init incr body =>
-      -- `var i = init` runs first; the test reads `i` and `lim`, the update `i` and `incr`
-      if D.contains lim && allIn D (readsE init) && allIn (i :: D) (readsE incr) && (scopedStmts (i :: D) body).isSome
-      then some (i :: D) else none
+    | .forStep i lim step idx init body =>
+      -- `var i = init, idx = 0` runs first; the test reads `i` and `lim`, the update `i`, `step` and `idx`
+      if D.contains lim && D.contains step && allIn D (readsE init) && (scopedStmts (idx :: i :: D) body).isSome
+      then some (idx :: i :: D) else none
     | .switchS e cases => if allIn D (readsE e) && scopedCases D cases then some D else none
     | .ifPos lim body els =>
       if D.contains lim && (scopedStmts D body).isSome && (scopedStmts D els).isSome then some D else none
@@ -316,20 +316,27 @@ theorem covers_pushForEach {D : List Bytes} {sc : Scope} (h : Covers D sc) (v : 
         exact Sub.cons _ _ g (Sub.cons _ _ g (Sub.cons _ _ g (h k g hl)))
 
 theorem covers_pushForRange {D : List Bytes} {sc : Scope} (h : Covers D sc) (v : Bytes) :
-    Covers ((sc.pushForRange v).1.1 :: (sc.pushForRange v).1.2 :: D) (sc.pushForRange v).2 := by
+    Covers ((sc.pushForRange v).1.2.2.2 :: (sc.pushForRange v).1.1 :: (sc.pushForRange v).1.2.2.1 ::
+      (sc.pushForRange v).1.2.1 :: D) (sc.pushForRange v).2 := by
   intro k g hl
   simp only [Scope.pushForRange, Scope.lookup, Scope.lookupIn, C04c.frameGet_frameSet, frameGet?] at hl
-  by_cases h1 : (Scope.kIndex ++ v == k) = true
-  · simp only [h1, if_true, Option.some.injEq] at hl; subst hl
+  by_cases h0 : (Scope.kVar ++ v == k) = true
+  · simp only [h0, if_true, Option.some.injEq] at hl; subst hl
     simp [Scope.pushForRange]
-  · by_cases h2 : (Scope.kLimit ++ v == k) = true
-    · simp only [h1, h2, Bool.false_eq_true, if_false, if_true, Option.some.injEq] at hl; subst hl
-      simp [Scope.pushForRange]
-    · by_cases h3 : (v == k) = true
-      · simp only [h1, h2, h3, Bool.false_eq_true, if_false, if_true, Option.some.injEq] at hl; subst hl
-        simp [Scope.pushForRange]
-      · simp only [h1, h2, h3, Bool.false_eq_true, if_false] at hl
-        exact Sub.cons _ _ g (Sub.cons _ _ g (h k g hl))
+  by_cases h1 : (Scope.kIndex ++ v == k) = true
+  · simp only [h0, h1, Bool.false_eq_true, if_false, if_true, Option.some.injEq] at hl; subst hl
+    simp [Scope.pushForRange]
+  by_cases h4 : (Scope.kStep ++ v == k) = true
+  · simp only [h0, h1, h4, Bool.false_eq_true, if_false, if_true, Option.some.injEq] at hl; subst hl
+    simp [Scope.pushForRange]
+  by_cases h2 : (Scope.kLimit ++ v == k) = true
+  · simp only [h0, h1, h4, h2, Bool.false_eq_true, if_false, if_true, Option.some.injEq] at hl; subst hl
+    simp [Scope.pushForRange]
+  by_cases h3 : (v == k) = true
+  · simp only [h0, h1, h4, h2, h3, Bool.false_eq_true, if_false, if_true, Option.some.injEq] at hl; subst hl
+    simp [Scope.pushForRange]
+  · simp only [h0, h1, h4, h2, h3, Bool.false_eq_true, if_false] at hl
+    exact Sub.cons _ _ g (Sub.cons _ _ g (Sub.cons _ _ g (Sub.cons _ _ g (h k g hl))))
 
 section
 variable (ae : Autoescape)
@@ -377,11 +384,14 @@ mutual
         obtain ⟨_, b2, _⟩ := toBody_scope ae body buf _ rbv hrb p1
         have hst : rbv.2.pop.stack = sc.stack := by simp only [Scope.pop]; rw [b2, p2]
         have hc2 := covers_pushForRange hc v
-        obtain ⟨D4, h4, _, _⟩ := scoped_body body buf _ rbv _ hrb p1 hc2 (Sub.cons _ _ _ (Sub.cons _ _ _ hb))
-        have hsub : Sub D ((sc.pushForRange v).1.1 :: (sc.pushForRange v).1.2 :: D) := (Sub.cons _ D).trans (Sub.cons _ _)
+        obtain ⟨D4, h4, _, _⟩ := scoped_body body buf _ rbv _ hrb p1 hc2
+          (Sub.cons _ _ _ (Sub.cons _ _ _ (Sub.cons _ _ _ (Sub.cons _ _ _ hb))))
+        have hsub2 : Sub D ((sc.pushForRange v).1.2.2.1 :: (sc.pushForRange v).1.2.1 :: D) := (Sub.cons _ D).trans (Sub.cons _ _)
+        have hsub : Sub D ((sc.pushForRange v).1.2.2.2 :: (sc.pushForRange v).1.1 :: (sc.pushForRange v).1.2.2.1 ::
+            (sc.pushForRange v).1.2.1 :: D) := (hsub2.trans (Sub.cons _ _)).trans (Sub.cons _ _)
         refine ⟨_, ?_, (hc.mono hsub).stack hst, hsub⟩
         have r1 := toAst_reads D sc hc l jl hjl
-        have r2 := allIn_mono (toAst_reads D sc hc _ ji hji) (Sub.cons (sc.pushForRange v).1.2 D)
+        have r2 := allIn_mono (toAst_reads D sc hc _ ji hji) hsub2
         simp [rangeStmts, JsStmts.one, scopedStmts, scopedStmt, r1, r2, h4, readsE, allIn_nil]
       obtain ⟨hv, _, j, rbv, hj, hrb, he⟩ := forcJoin_some h
       simp only at he
